@@ -1958,6 +1958,17 @@ impl Db {
 		}
 		s
 	}
+
+	#[cfg(pdb_verif)]
+	pub(crate) fn verif_btree_dump(&self, col: ColId) -> Result<crate::btree::verif::TreeDump> {
+		match &self.inner.columns[col as usize] {
+			Column::Hash(_) => Err(Error::InvalidConfiguration("Not an indexed column.".to_string())),
+			Column::Tree(column) => {
+				let log = self.inner.log.overlays().read();
+				column.verif_dump(&*log)
+			},
+		}
+	}
 }
 
 /// Verification hooks (compiled only with `--cfg pdb_verif`): read-only.
